@@ -102,6 +102,7 @@ var specStructs = [][2]string{
 	{"tlb.Transaction", "Transaction"},
 	{"wallet.W5Actions", "OutList"}, {"wallet.W5ExtendedAction", "W5ExtendedAction"},
 	{"wallet.W5ExtendedActions", "W5ExtendedActions"}, {"wallet.MessageV5", "WalletV5R1Body"},
+	{"wallet.HighloadV2Message", "HighloadV2Body"},
 }
 
 func genC04(g *h.G) {
